@@ -258,7 +258,8 @@ Qed.
 (* renames, abstract <-> concrete, required <-> optional expand to no flat command at all *)
 Definition storage_neutral (e : uev) : bool :=
   match e with
-  | URenameType _ _ | URenamePtr _ _ _ | URenameLP _ _ _ _ | USetAbstract _ _ | USetReq _ _ _ => true
+  | URenameType _ _ | URenamePtr _ _ _ | URenameLP _ _ _ _ | USetAbstract _ _ | USetReq _ _ _
+  | USetType _ _ _ => true
   | _ => false
   end.
 
@@ -278,5 +279,10 @@ Qed.
 
 Lemma p_ptrref_agrees singular has_props :
   ref_in_source singular has_props = ptr_in_source singular has_props /\
-  ref_in_pointer singular has_props = ptr_in_pointer singular has_props.
-Proof. destruct singular, has_props; split; reflexivity. Qed.
+  ref_in_pointer singular has_props = ptr_in_pointer singular has_props /\
+  ref_col_by_name singular has_props = ptr_col_by_name singular has_props.
+Proof. destruct singular, has_props; repeat split; reflexivity. Qed.
+
+(* a pointer that is not `id` gets a name-based column exactly when its name starts with `__` *)
+Lemma p_named_column_dunder p : named_column p = dunder p.
+Proof. unfold named_column. destruct (dunder p); reflexivity. Qed.
